@@ -131,12 +131,12 @@ func c25specs() []gw.Spec {
 		cfg.Auth = auth
 		cfg.Predefined = topics.PredefinedTopics{"*": {1: "p/1"}}
 		out = append(out,
-			gw.Spec{Name: fmt.Sprintf("fresh,auth=%t", auth), Cfg: cfg, NewMonitor: func() gw.Monitor { return &c25mon{maxDepth: depth, alphabet: alpha} }},
+			gw.Spec{Name: fmt.Sprintf("fresh,auth=%t", auth), Cfg: cfg, Livelock: true, NewMonitor: func() gw.Monitor { return &c25mon{maxDepth: depth, alphabet: alpha} }},
 		)
 		if !auth {
 			out = append(out,
-				gw.Spec{Name: "connected", Cfg: cfg, Setup: connectSetup("c1", 30), NewMonitor: func() gw.Monitor { return &c25mon{maxDepth: depth, alphabet: alpha} }},
-				gw.Spec{Name: "asleep", Cfg: cfg, Setup: append(connectSetup("c1", 30), gw.EvC("DISCONNECT(60)", gw.Disconnect(60))), NewMonitor: func() gw.Monitor { return &c25mon{maxDepth: depth, alphabet: alpha} }},
+				gw.Spec{Name: "connected", Cfg: cfg, Livelock: true, Setup: connectSetup("c1", 30), NewMonitor: func() gw.Monitor { return &c25mon{maxDepth: depth, alphabet: alpha} }},
+				gw.Spec{Name: "asleep", Cfg: cfg, Livelock: true, Setup: append(connectSetup("c1", 30), gw.EvC("DISCONNECT(60)", gw.Disconnect(60))), NewMonitor: func() gw.Monitor { return &c25mon{maxDepth: depth, alphabet: alpha} }},
 			)
 		}
 	}
